@@ -9,6 +9,13 @@
      N id key fn ply depth a b s site ty ic ttty ttf ttd mg q oic nm c1 .. cnm   -> OK | BAD
      RW cid alpha beta score n      -> OK | BAD
      RL score n nm c1 .. cnm        -> OK | BAD
+     RETRY                          -> re-submits the requests answered BAD so far (in their original
+                                       order, repeatedly, until a whole round accepts nothing new) and
+                                       prints one final verdict line per such request, in order.  Used
+                                       for multi-threaded traces, whose files carry no common clock: a
+                                       node may rely on a table entry stored by another thread that
+                                       comes later in the stream.  Every acceptance is still made by
+                                       [step] on the state built from earlier acceptances.
    ids: decimal, 0 = none; key: hex (64 bit). *)
 open Search_model
 
@@ -35,6 +42,7 @@ let pb b = if b then "1" else "0"
 let () =
   let acc = ref PositiveMap.empty in
   let st = ref PositiveMap.empty in
+  let pending : (unit -> bool) list ref = ref [] in   (* rejected requests, newest first *)
   (try
      while true do
        let line = input_line stdin in
@@ -61,15 +69,33 @@ let () =
              let nm = i 18 in
              let ms = List.init nm (fun k -> opt_id (i (19 + k))) in
              let o = { o_ic = b_of_int (i 17); o_moves = ms } in
-             (match step !acc !st id n o with
-              | Some (a, s) -> acc := a; st := s; print_endline "OK"
-              | None -> print_endline "BAD")
+             let attempt () = match step !acc !st id n o with
+               | Some (a, s) -> acc := a; st := s; true
+               | None -> false in
+             if attempt () then print_endline "OK"
+             else begin pending := attempt :: !pending; print_endline "BAD" end
          | "RW" ->
-             print_endline (if check_root_win !acc (pos_of_int (i 1)) (z 2) (z 3) (z 4) (z 5) then "OK" else "BAD")
+             let cid = pos_of_int (i 1) and a = z 2 and b = z 3 and s = z 4 and n = z 5 in
+             let attempt () = check_root_win !acc cid a b s n in
+             if attempt () then print_endline "OK"
+             else begin pending := attempt :: !pending; print_endline "BAD" end
          | "RL" ->
              let nm = i 3 in
              let ms = List.init nm (fun k -> opt_id (i (4 + k))) in
-             print_endline (if check_root_loss !acc { o_ic = false; o_moves = ms } (z 1) (z 2) then "OK" else "BAD")
+             let s = z 1 and n = z 2 in
+             let attempt () = check_root_loss !acc { o_ic = false; o_moves = ms } s n in
+             if attempt () then print_endline "OK"
+             else begin pending := attempt :: !pending; print_endline "BAD" end
+         | "RETRY" ->
+             let items = Array.of_list (List.rev !pending) in
+             let ok = Array.make (Array.length items) false in
+             let progress = ref true in
+             while !progress do
+               progress := false;
+               Array.iteri (fun k f -> if not ok.(k) && f () then begin ok.(k) <- true; progress := true end) items
+             done;
+             Array.iter (fun b -> print_endline (if b then "OK" else "BAD")) ok;
+             pending := []
          | s -> failwith ("bad request " ^ s)
        end
      done
